@@ -13,7 +13,8 @@ LEVEL = "exploration"
 CACHE = {"omitted": None, "true": True, "false": False}
 STRUCT = {"omitted": None, "true": True, "false": False}
 EXTS = {"omitted": None, "[rs]": ["rs"], "[txt]": ["txt"]}
-LOCKS = {"absent": None, "valid=max+1": 8, "valid-ahead": 100, "corrupt": "next_reference_id: [oops\n", "empty": ""}
+LOCKS = {"absent": None, "valid=max+1": 8, "valid-ahead": 100, "corrupt": "next_reference_id: [oops\n", "empty": "",
+         "git-conflict": "<<<<<<< HEAD\nnext_reference_id: 16\n=======\nnext_reference_id: 18\n>>>>>>> feature\n"}
 TREES = {
     "missing": {"src/a.rs": 'fn a() {\n    info!("[ref: 7] have");\n    info!("need");\n}\n', "src/b.txt": 'fn b() { info!("need in txt"); }\n',
                 "src/c.md": "info!(\"not code\")\n"},
@@ -174,10 +175,18 @@ def model_and_judge(o, v):
 
 
 def parse_lock(b):
+    """Model of 'the lock can be parsed': apart from comments, blank lines and a document marker the file is exactly one
+    `next_reference_id: <u32>` mapping entry. Anything else (conflict markers, other text) is 'cannot be parsed'."""
     if b is None:
         return None
-    m = re.search(rb"^next_reference_id:\s*([0-9]+)\s*$", b, re.M)
-    return int(m.group(1)) if m else "corrupt"
+    lines = [l.strip() for l in b.decode("utf-8", "replace").replace("\r\n", "\n").split("\n")]
+    lines = [l for l in lines if l and not l.startswith("#") and l != "---"]
+    if len(lines) != 1:
+        return "corrupt"
+    m = re.match(r"^next_reference_id:\s*([0-9]+)$", lines[0])
+    if not m or int(m.group(1)) > 0xFFFFFFFF:
+        return "corrupt"
+    return int(m.group(1))
 
 
 def run(tier, v):
@@ -221,7 +230,7 @@ def run(tier, v):
                             replay_files={"proj/" + k: c for k, c in o["before"].items()},
                             replay_cmd="W=$(mktemp -d); cp -r proj $W/; /verif/.build/repo/release/breadlog -c $W/proj/Breadlog.yaml %s; echo exit=$?; head -50 $W/proj/src/* $W/proj/Breadlog.lock" % ("--check" if (spec[-1] is True) else ""))
     v.subspace("full product use_cache{omitted,true,false} x structured{omitted,true,false} x extensions{omitted,[rs],[txt]} x lock{absent,max+1,ahead,"
-               "corrupt,empty} x tree{missing,nothing missing,no in-scope file} x mode, each inserting edit run followed by (delete max statement, add one, edit)",
+               "corrupt,empty,git-conflict} x tree{missing,nothing missing,no in-scope file} x mode, each inserting edit run followed by (delete max statement, add one, edit)",
                len(jobs) - 2 * len(INVALID), exhaustive=True, distinct_outcomes=len(outcomes))
     v.subspace("invalid set-ups {config missing, invalid YAML, source_dir key missing / nonexistent / a file} x mode", 2 * len(INVALID))
     v.sample({"use_cache": "omitted", "structured": "omitted", "extensions": "omitted", "lock": "corrupt", "tree": "missing", "mode": "edit",
